@@ -267,6 +267,8 @@ def run(repo, rep):
     rule_same_operator_guard(repo, rep)
     rep.clause("C16-s", "a constraint whose report line speaks of 'W and H' / 'both' requires its condition of both axes (comparisons of a height and a width variable with the same value are joined with `and`)")
     rule_both_axes(repo, rep)
+    rep.clause("C16-u", "constraint_tconv_valid accepts exactly the OFM extent of the TFLite kernel, (IFM - 1) * stride + max(kernel, stride), per axis (folded on a 180-point grid)")
+    rule_tconv_valid_evaluated(repo, rep)
     rep.clause("C16-t", "a loop variable named after an operand iterates that operand's collection: the placement of the IFM's producers is asked of the IFM's producers (operand stems of loop variables, 8 loops, no exception)")
     from .shared import loop_stem_lint
 
@@ -1296,3 +1298,36 @@ def rule_both_axes(repo, rep, rule="C16-s"):
                           "meeting the condition is accepted")
     if n < 2:
         raise AnalysisError(f"both-axes conditions: {n} found")
+
+
+def rule_tconv_valid_evaluated(repo, rep):
+    """(u) 'VALID padding: OFM dimensions must equal IFM dimensions multiplied by stride, minus difference between kernel size and stride':
+    the TFLite output extent is (in - 1) * stride + max(kernel, stride), i.e. in * stride + max(kernel - stride, 0). The two checks of
+    constraint_tconv_valid are folded on a grid (IFM 1..5, stride 1..3, kernel 1..4): each must hold for exactly that OFM extent - with a
+    kernel smaller than the stride the difference is not subtracted."""
+    from .c03 import eval_with
+
+    so = repo.mod("tflite_supported_operators")
+    fn = so.func("TFLiteSupportedOperators.constraint_tconv_valid")
+    site = "ethosu/vela/tflite_supported_operators.py:TFLiteSupportedOperators.constraint_tconv_valid"
+    n = 0
+    for name, ax, sv, kv in (("height_check", 1, "s_h", "k_h"), ("width_check", 2, "s_w", "k_w")):
+        defs = [st for st in ast.walk(fn) if isinstance(st, ast.Assign) and str(norm(st.targets[0])) == name]
+        if len(defs) != 1:
+            raise AnalysisError(f"constraint_tconv_valid: {name} not found")
+        wrong = None
+        for i in range(1, 6):
+            for s_ in (1, 2, 3):
+                for k in (1, 2, 3, 4):
+                    want = (i - 1) * s_ + max(k, s_)
+                    for ofm in (want - 1, want, want + 1):
+                        got = eval_with(defs[0].value, {f"ofm_shape[{ax}]": ofm, f"ifm_shape[{ax}]": i, sv: s_, kv: k})
+                        if got is None:
+                            raise AnalysisError(f"constraint_tconv_valid: `{str(norm(defs[0].value))[:70]}` not foldable")
+                        n += 1
+                        if bool(got) != (ofm == want) and wrong is None:
+                            wrong = (i, s_, k, ofm, bool(got), want)
+        rep.check(wrong is None, "C16-u", site, f"`{name}` accepts exactly OFM = (IFM - 1) * stride + max(kernel, stride) (folded on a grid)",
+                  f"IFM {wrong[0]}, stride {wrong[1]}, kernel {wrong[2]}: OFM {wrong[3]} is {'accepted' if wrong[4] else 'rejected'}, the operator produces {wrong[5]} - a correctly shaped TRANSPOSE_CONV with a kernel smaller than its stride is left on the CPU and one that is one short goes to the NPU" if wrong else "")
+    if n < 300:
+        raise AnalysisError("constraint_tconv_valid: grid not evaluated")
